@@ -428,8 +428,32 @@ func (w *World) CheckConservation(n *Node) {
 					issued.Sub(issued, Val(v.Transaction.Spice))
 				}
 			}
-			if sum.Cmp(issued) != 0 {
-				w.Violate("C02", "reported-balances-do-not-add-up", fmt.Sprintf("node %s: reported balances of all wallets add up to %s, the genesis wallet issued %s", n.Name, sum, issued))
+			// a wallet whose checkpointed vertices spent more than they brought in at some truncation (both conflicting spends
+			// of the listed cross-branch finding got checkpointed) was held at zero by the checkpoint, which cannot carry a
+			// debt; from then on its checkpointed funds exceed the net flow of its checkpointed vertices. The overdrawn
+			// wallet itself is reported by the first observation above and by the truncation oracle (which marks it); the sum
+			// is held to the supply plus what the checkpoint holds in excess for the wallets so marked.
+			excess := new(big.Int)
+			for a := range n.Tainted {
+				if a == w.GenIss {
+					continue
+				}
+				in, out := Flows(a, func(yield func(*accountant.Vertex)) {
+					for _, v := range s.Stored {
+						yield(v)
+					}
+				})
+				have := new(big.Int)
+				if f, ok := s.Funds[a]; ok {
+					have = Val(f)
+				}
+				excess.Add(excess, have.Sub(have, in.Sub(in, out)))
+			}
+			if excess.Sign() != 0 {
+				w.Res.Count("c02_sum_checks_with_a_debt_held_at_zero_by_the_checkpoint", 1)
+			}
+			if sum.Cmp(new(big.Int).Add(issued, excess)) != 0 {
+				w.Violate("C02", "reported-balances-do-not-add-up", fmt.Sprintf("node %s: reported balances of all wallets add up to %s, the genesis wallet issued %s (held in excess by the checkpoint for wallets whose debt it could not carry: %s)", n.Name, sum, issued, excess))
 			}
 			w.Res.Count("c02_single_tip_sum_checks", 1)
 		}
